@@ -33,16 +33,32 @@ def satisfied_vs_straddling(rng):
     st = rng.choice([1, -1, -1])
     sub = seq[a:b]
     target = sub if st == 1 else "".join(COMP[c] for c in reversed(sub))
-    kind = rng.choice(["sequence_obj", "sequence_obj", "keep_obj"])
-    strong = dict(kind="sequence_obj", sequence=target, location=[a, b, st], boost=rng.choice([3, 5])) if kind == "sequence_obj" \
-        else dict(kind="keep_obj", location=[a, b, rng.choice([1, 0])], boost=rng.choice([3, 5]))
+    kind = rng.choice(["sequence_obj", "sequence_obj", "keep_obj", "cds_obj", "cds_obj"])
+    if kind == "sequence_obj":
+        strong = dict(kind="sequence_obj", sequence=target, location=[a, b, st], boost=rng.choice([3, 5]))
+    elif kind == "keep_obj":
+        strong = dict(kind="keep_obj", location=[a, b, rng.choice([1, 0])], boost=rng.choice([3, 5]))
+    else:
+        b = a + 3 * max(2, (b - a) // 3)
+        if b > n:
+            b = a + 3 * ((n - a) // 3)
+        # a protein to keep, as a weighted objective (single-codon amino acids make every edit costly)
+        strong = dict(kind="cds_obj", location=[a, b, st], table=rng.choice(["Standard", "Bacterial"]), boost=rng.choice([3, 5]))
+        if rng.random() < 0.7:
+            region = "".join(rng.choice(["ATG", "TGG"]) for _ in range((b - a) // 3))      # no synonymous way out
+            if st == -1:
+                region = "".join(COMP[c] for c in reversed(region))
+            seq = seq[:a] + region + seq[b:]
     # the weak objective: avoid a word that occurs exactly once, across position a (or b)
     edge = a if rng.random() < 0.6 else b
     k = rng.choice([4, 5, 6])
     off = rng.randint(1, k - 1)
     w0 = max(0, min(n - k, edge - off))
     word = seq[w0:w0 + k]
-    weak = dict(kind="pattern_obj", pattern=word, boost=rng.choice([0.5, 1]))
+    if kind == "cds_obj" and rng.random() < 0.6:
+        w0 = rng.randint(a, max(a, b - k))         # a word inside the protein-coding region
+    word = seq[w0:w0 + k]
+    weak = dict(kind="pattern_obj", pattern=word, boost=rng.choice([0.5, 1, 2, 2]))
     return dict(sequence=seq, constraints=[], objectives=[strong, weak] if rng.random() < 0.5 else [weak, strong],
                 settings=problems.rand_settings(rng), np_seed=rng.randint(0, 10 ** 6))
 
